@@ -213,10 +213,15 @@ def search_c09():
     groups = np.array([3, 3, 3, 3, 7, 9, 9])          # unequal group sizes
     rd = rsatoolbox.rdm.RDMs(np.arange(len(groups) * nvec, dtype=float).reshape(len(groups), nvec) + 1,
                              rdm_descriptors={'g': groups}, pattern_descriptors={'p': np.array([1, 1, 2, 5])})
-    for fn, kw, pick, want in ((bs.bootstrap_sample_rdm, dict(rdm_descriptor='g'), lambda o: o[1], [3, 7, 9]),
-                               (bs.bootstrap_sample_pattern, dict(pattern_descriptor='p'), lambda o: o[1], [1, 2, 5]),
-                               (bs.bootstrap_sample, dict(rdm_descriptor='g', pattern_descriptor='p'), lambda o: o[1], [3, 7, 9]),
-                               (bs.bootstrap_sample, dict(rdm_descriptor='g', pattern_descriptor='p'), lambda o: o[2], [1, 2, 5])):
+    sub = rd.subset_pattern('index', [1, 2, 3]).subset('index', [2, 4, 5])      # 'index' descriptors that are not 0..n-1
+    for rd, fn, kw, pick, want in ((rd, bs.bootstrap_sample_rdm, dict(rdm_descriptor='g'), lambda o: o[1], [3, 7, 9]),
+                                   (rd, bs.bootstrap_sample_pattern, dict(pattern_descriptor='p'), lambda o: o[1], [1, 2, 5]),
+                                   (rd, bs.bootstrap_sample, dict(rdm_descriptor='g', pattern_descriptor='p'), lambda o: o[1], [3, 7, 9]),
+                                   (rd, bs.bootstrap_sample, dict(rdm_descriptor='g', pattern_descriptor='p'), lambda o: o[2], [1, 2, 5]),
+                                   (sub, bs.bootstrap_sample_pattern, {}, lambda o: o[1], [1, 2, 3]),
+                                   (sub, bs.bootstrap_sample_rdm, {}, lambda o: o[1], [2, 4, 5]),
+                                   (sub, bs.bootstrap_sample, {}, lambda o: o[1], [2, 4, 5]),
+                                   (sub, bs.bootstrap_sample, {}, lambda o: o[2], [1, 2, 3])):
         counts = {w: 0 for w in want}
         np.random.seed(12345)
         n_rep = 3000
